@@ -93,6 +93,11 @@ func main() {
 			if e := recover(); e != nil {
 				fmt.Printf("checker panic: %v\n%s\n", e, debug.Stack())
 				rep.Undecided(*prop+".R0", "checker", fmt.Sprintf("checker panicked: %v", e))
+				if *noEvidence {
+					// a run on a scratch copy never touches /verif/evidence
+					code = childFinish(rep)
+					return
+				}
 				code = rep.Finish(*verif, "")
 				if code == 0 {
 					code = 1
@@ -102,6 +107,10 @@ func main() {
 		c, err := Load(*repo, *tier, *tier == "thorough")
 		if err != nil {
 			rep.Undecided(*prop+".R0", "load", err.Error())
+			if *noEvidence {
+				// a run on a scratch copy never touches /verif/evidence
+				return childFinish(rep)
+			}
 			return rep.Finish(*verif, "")
 		}
 		rep.Analysed.Packages = c.NPkgs
